@@ -429,6 +429,18 @@ def dropout_cases(tier):
                 return L(T["x"])
             cases.append(VCase("nn.Dropout", {"op": "nn.Dropout", "p": p, "training": training, "shape": (2, 3)}, [Leaf("x", (2, 3))], build,
                                functions=("synapgrad.nn.layers.Dropout.forward",)))
+    # the same layer object applied again (same shape, other operand) between the forward and the backward of the first application:
+    # the first result is still differentiated as the function that was computed (its own mask)
+    for p in (0.3, 0.5):
+        def build2(T, K, p=p):
+            np.random.seed(4321)
+            L = m.Dropout(p)
+            y1 = L(T["x"])
+            L(T["x2"])
+            L(T["x2"] * 2.0)
+            return y1
+        cases.append(VCase("nn.Dropout", {"op": "nn.Dropout", "p": p, "training": True, "shape": (2, 3), "layer_reused_before_backward": True},
+                           [Leaf("x", (2, 3)), Leaf("x2", (2, 3), "any", False)], build2, functions=("synapgrad.nn.layers.Dropout.forward",)))
     return cases
 
 
